@@ -198,6 +198,17 @@ impl Block for SymbolSync {
                 self.stream_pos -= step_back;
                 self.last_sym_boundary_pos -= step_back;
                 self.next_sym_middle -= step_back;
+            } else if self.stream_pos > 100_000.0 {
+                // No symbol boundary for a very long time (silence, a constant
+                // level), so the step back above never happens. Forget the
+                // stale boundary and bring the positions back down: an f32
+                // stops counting samples at 2^24.
+                let back = self.stream_pos.min(self.next_sym_middle) - step_back;
+                if back > 0.0 {
+                    self.stream_pos -= back;
+                    self.next_sym_middle -= back;
+                    self.last_sym_boundary_pos = 0.0;
+                }
             }
             if full {
                 break;
